@@ -136,6 +136,15 @@ CLAIMED["C11"] = _entry(
     "static analysis: exhaustiveness of mode tests with CFG dominance, literal agreement against the codec registry, wrapper identity, all-paths-assign, loop progress, contradiction (dead comparison) rule",
 )
 
+CLAIMED["C03"] = _entry(
+    "Static analysis decides: the undisplayable-text exception is contained in layout(); every text-consuming loop of the layout advances on every path (termination for every text and "
+    "width); Text's reported rows and rendered lines come from the same layout with one canvas row per layout line; a character is marked as consumed-and-hidden only at the line's newline "
+    "or under a space test; the alignment paddings are the specified closed forms; the double-byte look-back tests used by the break search are not dead. Completeness/no-duplication of "
+    "characters, that no line spans a hard newline, and wrap optimality are value properties of offsets and are not decided (level 'other').",
+    "DESIGN.md section 3, C03; engines E3, E10, E6",
+    "static analysis: exception-escape, loop progress on the CFG, guard dominance of consume markers, closed-form comparison of alignment padding, contradiction rule",
+)
+
 _PENDING = "check not built yet in this session (planned per DESIGN.md section 3); listed here until its static rules exist and pass on the pinned tree"
 NOT_APPLICABLE = {pid: _PENDING for pid in [f"C{i:02d}" for i in range(1, 21)] if pid not in CLAIMED and pid != "C07"}
 NOT_APPLICABLE["C07"] = (
